@@ -34,7 +34,12 @@ CONSTANTS EMIT,       \* TRUE: print one EMIT record per completed rollout
           Lens,       \* episode lengths a script may use
           NEps,       \* episodes per (cyclic) script
           BlockSizes, \* divisors bs of T: train_ppo(iterations = T / bs, batch_size = bs), one collect_trajectories / update_ppo per block
-          Variant     \* "spec" | deviations "last_finished_only", "reset_observation"
+          Variant,    \* "spec" | deviations "last_finished_only", "reset_observation", "restored_only_with_logger"
+          Setup       \* how the rollout is run: "logger_stats" (train_ppo with a logger; it wraps the environment in
+                      \* RecordEpisodeStatistics), "no_logger" (train_ppo, logger = None), "logger_no_stats"
+                      \* (collect_trajectories / update_ppo on the bare vector environment, with a logger).
+                      \* The specified behaviour does NOT mention Setup: the same rollout is expected in all three;
+                      \* only the deviation "restored_only_with_logger" reads it.
 
 VARIABLES st, script, blocking, es, hist
 vars == <<st, script, blocking, es, hist>>
@@ -74,14 +79,16 @@ NextObs(x) == IF x.done THEN x.reset ELSE x.final
 (* 2. ppo.collect_trajectories, one vector step                             *)
 
 (* the observations the next values are computed from *)
+SpecBootObs(xs) == [e \in Envs |-> IF xs[e].done THEN xs[e].final ELSE NextObs(xs[e])]
 BootObs(xs) ==
-  CASE Variant = "spec" ->
-         [e \in Envs |-> IF xs[e].done THEN xs[e].final ELSE NextObs(xs[e])]
+  CASE Variant = "spec" -> SpecBootObs(xs)
     [] Variant = "last_finished_only" ->      \* deviation: every write starts again from the successor array
          LET fin == {e \in Envs : xs[e].done}
          IN [e \in Envs |-> IF e \in fin /\ \A f \in fin : f <= e THEN xs[e].final ELSE NextObs(xs[e])]
     [] Variant = "reset_observation" ->       \* deviation: the final observations are not put back at all
          [e \in Envs |-> NextObs(xs[e])]
+    [] Variant = "restored_only_with_logger" ->  \* deviation: put back only while episode statistics are logged
+         IF Setup = "logger_stats" THEN SpecBootObs(xs) ELSE [e \in Envs |-> NextObs(xs[e])]
 
 Row(x, boot) ==
   [obs |-> x.obs, rew |-> x.rew, term |-> x.term, trunc |-> x.trunc, boot |-> boot, nv |-> V(boot),
